@@ -56,9 +56,11 @@ type c03Case struct {
 	Pos     int    `json:"pos"`
 	// Expect: "", same (ID of K), other (ID of another key)
 	Expect string `json:"expect"`
+	// WarmUp verifies the victim's honest chain first in the same process (verification is a history, not a single call)
+	WarmUp bool `json:"warm_up"`
 }
 
-var c03Forgeries = []string{"honest", "honest", "ext-signed-by-other", "ext-for-other-cert-key", "not-self-signed", "bad-self-signature", "no-extension", "ext-bitflip",
+var c03Forgeries = []string{"honest", "honest", "ext-signed-by-other", "ext-for-other-cert-key", "replayed-extension-on-other-key", "replayed-extension-on-other-key", "not-self-signed", "bad-self-signature", "no-extension", "ext-bitflip",
 	"ext-truncated", "ext-trailing", "ext-critical", "wrong-oid", "two-certs", "empty-chain", "expired", "not-yet-valid",
 	"ext-bad-keytype", "ext-bad-keylen", "ext-not-asn1"}
 
@@ -69,6 +71,7 @@ func genC03(t *rapid.T) c03Case {
 		Forgery: rapid.SampledFrom(c03Forgeries).Draw(t, "forgery"),
 		Pos:     rapid.IntRange(0, 400).Draw(t, "pos"),
 		Expect:  rapid.SampledFrom([]string{"", "", "same", "other"}).Draw(t, "expect"),
+		WarmUp:  rapid.Bool().Draw(t, "warmup"),
 	}
 }
 
@@ -107,6 +110,14 @@ func buildChain(c c03Case) ([][]byte, error) {
 	case "ext-for-other-cert-key":
 		// an honest extension of K, but made for another certificate key (replay into the attacker's cert)
 		ext, _ = p2ptls.GenerateSignedExtension(k, other.Public())
+	case "replayed-extension-on-other-key":
+		// the victim's genuine extension (made for the victim's certificate key) copied onto a certificate
+		// with the impostor's own key, properly self-signed by that key
+		der, err := x509.CreateCertificate(rand.Reader, withExt(tmpl, ext), tmpl, other.Public(), other)
+		if err != nil {
+			return nil, err
+		}
+		return [][]byte{der}, nil
 	case "not-self-signed":
 		signer = other
 	case "no-extension":
@@ -159,6 +170,11 @@ func buildChain(c c03Case) ([][]byte, error) {
 		return [][]byte{der, der2}, nil
 	}
 	return [][]byte{der}, nil
+}
+
+func withExt(tmpl *x509.Certificate, ext pkix.Extension) *x509.Certificate {
+	tmpl.ExtraExtensions = []pkix.Extension{ext}
+	return tmpl
 }
 
 func mustPKIX(k *ecdsa.PrivateKey) []byte {
@@ -215,6 +231,17 @@ func refVerify(chain []*x509.Certificate) (ed25519.PublicKey, bool, string) {
 func checkC03(c c03Case) (o vstat.Outcome) {
 	o.Classes = append(o.Classes, "layer:"+c.Layer, "forgery:"+c.Forgery)
 	o.NonTrivial = c.Forgery != "honest" || c.Expect != ""
+	if c.WarmUp {
+		// an honest handshake of the same identity happened earlier in this process
+		hc := c
+		hc.Forgery = "honest"
+		if hraw, herr := buildChain(hc); herr == nil && len(hraw) == 1 {
+			if hcert, perr := x509.ParseCertificate(hraw[0]); perr == nil {
+				_, _ = p2ptls.PubKeyFromCertChain([]*x509.Certificate{hcert})
+				o.Classes = append(o.Classes, "after-honest-verification")
+			}
+		}
+	}
 	raw, err := buildChain(c)
 	if err != nil {
 		o.Discard = true
